@@ -339,13 +339,17 @@ func (a *Application) executeTranslatedNonStreamingRequest(
 
 	// Parse OpenAI response
 	var openaiResp map[string]interface{}
-	if jerr := json.Unmarshal(recorder.body.Bytes(), &openaiResp); jerr != nil {
-		return fmt.Errorf("failed to parse OpenAI response: %w", jerr)
-	}
+	jerr := json.Unmarshal(recorder.body.Bytes(), &openaiResp)
 
-	// handle backend errors
+	// handle backend errors. This comes before looking at the parse result: error answers
+	// are often not JSON (HTML error pages, plain text) and the backend's status must reach
+	// the client either way.
 	if recorder.status >= 400 {
 		return a.handleNonStreamingBackendError(w, recorder, openaiResp, pr, trans)
+	}
+
+	if jerr != nil {
+		return fmt.Errorf("failed to parse OpenAI response: %w", jerr)
 	}
 
 	// transform and write successful response
